@@ -1,3 +1,112 @@
-From ZV Require Import Lib.Base Model.Queue.
-Theorem C30_placeholder : True. Proof. exact I. Qed.
-Print Assumptions C30_placeholder.
+(** C30 — the indexing queue behaves as a priority queue.
+    Model: Model/Queue.v (queue.go + backoff.go + container/heap transcribed). A history is any list of
+    timed operations (AddOrUpdate, Pop, Bump, SetIndexed with any state, MaybeRemoveMissing, Len, key set)
+    on any ids, known or not; [reach bd mx h] is the state after history h from NewQueue(bd, mx). *)
+From ZV Require Import Lib.Base Model.Queue Proofs.QueueHeap Proofs.QueueMap Proofs.QueueInv Proofs.QueueOps Proofs.QueueSpec.
+
+Definition reach (bd mx : Z) (h : list (Z * op)) : queue := run (new_queue bd mx) h.
+
+(** Every reachable state: heapIdx bookkeeping consistent (pq[k].heapIdx = k, items off the heap have -1,
+    heap entries are tracked, keys unique), heap ordered w.r.t. lessQueueItemPriority, sequence numbers
+    bounded by q.seq and pairwise distinct on the heap. *)
+Theorem C30_invariant : forall bd mx h, inv (reach bd mx h).
+Proof. exact reachable_inv. Qed.
+Print Assumptions C30_invariant.
+
+(** once per enqueue, part 1: a repository is on the queue at most once *)
+Theorem C30_enqueued_at_most_once : forall bd mx h, NoDup (q_pq (reach bd mx h)).
+Proof. intros. apply inv_nodup_pq. apply (inv_shape _ (reachable_inv bd mx h)). Qed.
+Print Assumptions C30_enqueued_at_most_once.
+
+(** Pop yields a minimum of the enqueued set under the priority order, returns that repository's current
+    options, removes exactly it from the queue (once per enqueue, part 2) and keeps it tracked, off the heap. *)
+Theorem C30_pop_min : forall bd mx h q' o,
+  pop (reach bd mx h) = (q', Some o) -> pop_spec (reach bd mx h) q' o.
+Proof. intros. apply pop_some; [apply reachable_inv | assumption]. Qed.
+Print Assumptions C30_pop_min.
+
+Theorem C30_pop_empty : forall bd mx h q', pop (reach bd mx h) = (q', None) -> q' = reach bd mx h /\ q_pq (reach bd mx h) = [].
+Proof. intros. apply pop_none. assumption. Qed.
+Print Assumptions C30_pop_empty.
+
+(** first-in first-out within a priority class (same indexed flag, same failed flag) *)
+Theorem C30_fifo_within_class : forall bd mx h q' o,
+  let q := reach bd mx h in
+  pop q = (q', Some o) ->
+  exists id x, on_heap q id /\ get id (q_items q) = Some x /\ o = it_opts x /\
+    forall id' x', on_heap q id' -> id' <> id -> get id' (q_items q) = Some x' ->
+      it_indexed x' = it_indexed x -> is_fail x' = is_fail x -> (it_seq x < it_seq x')%Z.
+Proof. intros. apply (pop_fifo _ q'); [apply reachable_inv | assumption]. Qed.
+Print Assumptions C30_fifo_within_class.
+
+(** backoff honoured: while now <= backoffUntil neither AddOrUpdate nor Bump puts the repository on the queue;
+    a failed SetIndexed takes it off the queue and sets backoffUntil = now + min((failures+1)*backoff, max) *)
+Theorem C30_backoff_honoured_add : forall bd mx h now o x,
+  let q := reach bd mx h in
+  get (o_repo o) (q_items q) = Some x -> it_hidx x = (-1)%Z -> (now <= it_until x)%Z ->
+  ~ on_heap (add_or_update q now o) (o_repo o).
+Proof. intros. apply (add_blocked _ now o x); auto. apply reachable_inv. Qed.
+Print Assumptions C30_backoff_honoured_add.
+
+Theorem C30_backoff_honoured_bump : forall bd mx h now ids id x,
+  let q := reach bd mx h in
+  get id (q_items q) = Some x -> it_hidx x = (-1)%Z -> (now <= it_until x)%Z ->
+  ~ on_heap (fst (bump q now ids)) id.
+Proof. intros. apply (bump_blocked now ids _ id x); auto. apply reachable_inv. Qed.
+Print Assumptions C30_backoff_honoured_bump.
+
+Theorem C30_fail_arms_backoff : forall bd mx h now o,
+  let q := reach bd mx h in
+  let q' := set_indexed_op q now o st_fail in
+  exists x', get (o_repo o) (q_items q') = Some x' /\ it_hidx x' = (-1)%Z /\ ~ on_heap q' (o_repo o) /\
+    let x := item_of (q_items q) (o_repo o) in
+    let d := ((it_cf x + 1) * c_bd (q_cfg q))%Z in
+    it_until x' = (now + (if (d >? c_max (q_cfg q))%Z then c_max (q_cfg q) else d))%Z.
+Proof. intros. apply set_indexed_fail_until. apply reachable_inv. Qed.
+Print Assumptions C30_fail_arms_backoff.
+
+(** MaybeRemoveMissing (repaired code), whenever it runs: the tracked set becomes old ∩ ids, exactly old \ ids
+    is reported, the queue keeps exactly the enqueued survivors and their data is untouched *)
+Theorem C30_remove_missing_exact : forall bd mx h ids,
+  let q := reach bd mx h in
+  length (q_items q) <> length ids ->
+  rm_exact q (fst (remove_missing q ids)) ids (snd (remove_missing q ids)).
+Proof. intros. apply remove_missing_exact; [apply reachable_inv | assumption]. Qed.
+Print Assumptions C30_remove_missing_exact.
+
+(** the documented same-size shortcut loses nothing when ids is a duplicate-free subset of the tracked set *)
+Theorem C30_heuristic_exact_when_subset : forall bd mx h ids,
+  let q := reach bd mx h in
+  NoDup ids -> incl ids (keys (q_items q)) -> length (q_items q) = length ids ->
+  remove_missing q ids = (q, []) /\ (forall id, In id (keys (q_items q)) -> In id ids).
+Proof. intros. apply heuristic_exact_when_subset; assumption. Qed.
+Print Assumptions C30_heuristic_exact_when_subset.
+
+(** The code before the repair (membership/delete/report keyed by item.opts.RepoID) violates exactness:
+    SetIndexed(3, v1, success) creates an item with empty options; MaybeRemoveMissing([]) then leaves
+    repository 3 tracked and reports the bogus id 0. *)
+Theorem C30_remove_missing_exact_refuted_before_fix :
+  exists h ids, let q := reach 0 0 h in
+    length (q_items q) <> length ids /\
+    keys (q_items (fst (remove_missing_prefix q ids))) = [3%N] /\ snd (remove_missing_prefix q ids) = [0%N] /\
+    filter (fun k => mem k ids) (keys (q_items q)) = [].
+Proof. exists [(1%Z, OSetIndexed 3 1 2)], []. vm_compute. repeat split; discriminate. Qed.
+Print Assumptions C30_remove_missing_exact_refuted_before_fix.
+
+(** * non-vacuity *)
+Definition ex_h : list (Z * op) :=
+  [(1, OAdd 1 1); (2, OAdd 2 1); (3, OAdd 3 1); (4, OSetIndexed 1 1 2); (5, OSetIndexed 2 1 1); (6, OAdd 2 2); (7, OAdd 5 1)]%Z.
+(* 3, 5 stale; 2 failed (backoff 0, re-enqueued); 1 indexed but still enqueued: Pop yields 3 first *)
+Example ex_pop : exists q', pop (reach 0 0 ex_h) = (q', Some {| o_repo := 3; o_ver := 1 |}) /\ q_pq (reach 0 0 ex_h) = [3; 5; 2; 1]%N.
+Proof. eexists. vm_compute. split; reflexivity. Qed.
+Example ex_fifo_class : exists x x', get 3%N (q_items (reach 0 0 ex_h)) = Some x /\ get 5%N (q_items (reach 0 0 ex_h)) = Some x' /\
+  it_indexed x' = it_indexed x /\ is_fail x' = is_fail x /\ (it_seq x < it_seq x')%Z.
+Proof. eexists. eexists. vm_compute. repeat split; reflexivity. Qed.
+Example ex_backoff : exists x, get 2%N (q_items (reach 3600 7200 ex_h)) = Some x /\ it_hidx x = (-1)%Z /\ (100 <= it_until x)%Z /\ it_until x = 3605%Z.
+Proof. eexists. vm_compute. repeat split; discriminate. Qed.
+Example ex_remove_missing : let q := reach 0 0 ex_h in
+  length (q_items q) <> length [1; 3]%N /\ remove_missing q [1; 3]%N <> (q, []) /\
+  keys (q_items (fst (remove_missing q [1; 3]%N))) = [1; 3]%N /\ snd (remove_missing q [1; 3]%N) = [2; 5]%N.
+Proof. vm_compute. repeat split; discriminate. Qed.
+Example ex_heuristic : let q := reach 0 0 ex_h in NoDup [5; 1; 2; 3]%N /\ incl [5; 1; 2; 3]%N (keys (q_items q)) /\ length (q_items q) = 4.
+Proof. vm_compute. split; [repeat constructor; simpl; intuition discriminate | split; [|reflexivity]]. intros a Ha. simpl in *. intuition. Qed.
